@@ -753,11 +753,9 @@ func CanonicalIsomorphAllocated(n, m int, neighbours [][]int, op *CanonicalOrder
 						continue jLoop
 					}
 
-				}
-
-				//Do the same for the currentBest
-				//Heuristic 2
-				if count > 0 && ints.HasPrefix(currentBestPath, path[:len(path)-1]) {
+				} else if count > 0 && ints.HasPrefix(currentBestPath, path[:len(path)-1]) {
+					//Do the same for the currentBest unless the node is also on the path to the first leaf. The two sets of orbits are stored with different representatives so applying both tests at one node could skip every element of an orbit.
+					//Heuristic 2
 					if currentBestOrbits[choiceElement] >= 0 {
 						skipDeage = true
 						continue jLoop
